@@ -24,6 +24,10 @@ func VerifC16_count() {
 		// counted when the connection ends, not before
 		if ps.h2served {
 			vAssert(evIndex("Inc") > evIndex("h2.ServeConn.returned"), "counted-after-h2-served")
+		} else if ps.h1refused {
+			// the HTTP/1.1 server had stopped accepting: handshake and capture succeeded, nobody served it
+			vReach("h1-hand-over-refused")
+			vAssert(evIndex("Inc") > evIndex("h1.SendRefused"), "counted-after-hand-over-refused")
 		} else {
 			vAssert(ps.h1closed && evIndex("Inc") > evIndex("h1.netHTTPClosesConn"), "counted-after-h1-served")
 		}
